@@ -464,6 +464,42 @@ pub fn run(ctx: &Ctx) -> i32 {
         ev.add("hook:frame-state-checks", hooks);
     });
     let mut ev = ev;
+    // pruning automata under upper bounds of 250..600 bytes that share a prefix with an fst path
+    {
+        use fst::automaton::{Str, Subsequence};
+        let keys: Vec<Vec<u8>> = vec![b"aax".to_vec(), b"ax".to_vec(), b"ay".to_vec(), b"b".to_vec(), b"ba".to_vec(), b"c".to_vec()];
+        let set = Set::from_iter(keys.iter()).unwrap();
+        for len in (250usize..=600).step_by(7).chain(255..=258) {
+            for fill in [b'a', b'b'].iter() {
+                let bound = vec![*fill; len];
+                for incl in [false, true].iter() {
+                    for (qi, q) in keys.iter().enumerate() {
+                        for kind in 0..3 {
+                            let pat = std::str::from_utf8(q).unwrap();
+                            let accept = |k: &Vec<u8>| match kind {
+                                0 => k == q,
+                                1 => k.starts_with(q),
+                                _ => { let mut it = k.iter(); q.iter().all(|c| it.any(|x| x == c)) }
+                            };
+                            let want: Vec<Vec<u8>> = keys.iter().filter(|k| accept(k) && (if *incl { k.as_slice() <= bound.as_slice() } else { k.as_slice() < bound.as_slice() })).cloned().collect();
+                            let r = guard(|| {
+                                macro_rules! go { ($a:expr) => {{ let b = set.search($a); let b = if *incl { b.le(&bound) } else { b.lt(&bound) }; b.into_stream().into_bytes() }}; }
+                                match kind { 0 => go!(Str::new(pat)), 1 => go!(Str::new(pat).starts_with()), _ => go!(Subsequence::new(pat)) }
+                            });
+                            ev.eval(None);
+                            ev.distinct_extra += 1;
+                            ev.count("queries:pruning-automaton-under-long-upper-bound");
+                            let d = || J::obj(vec![("automaton", J::s(["Str", "Str.starts_with", "Subsequence"][kind])), ("pattern", J::bytes(q)), ("upper_bound", J::s(&format!("{} x {:?} ({})", len, *fill as char, if *incl { "le" } else { "lt" }))), ("query_index", J::U(qi as u64))]);
+                            match r {
+                                Ok(got) => if got != want { ev.violate("search-mismatch", format!("pruning automaton under an upper bound of {} bytes: got {} keys, want {}", len, got.len(), want.len()), d()) },
+                                Err(pn) => ev.violate("search-panic", format!("search under an upper bound of {} bytes panicked: {}", len, pn), d()),
+                            }
+                        }
+                    }
+                }
+            }
+        }
+    }
     ev.note("dfas_total", J::U(ndfas as u64));
     ev.fps.insert(1);
     ev.fps.insert(2);
